@@ -88,6 +88,9 @@ func (e *Env) resolveType(name string) (types.Type, string) {
 		return tBool, "Bool"
 	case "ref":
 		return types.NewPointer(types.NewStruct(nil, nil)), "Int"
+	case "error", "any":
+		T := types.Universe.Lookup(name).Type()
+		return T, "Iface"
 	}
 	ptr := 0
 	for strings.HasPrefix(name, "*") {
@@ -553,6 +556,37 @@ func (e *Env) call(n *CNode) Val {
 	case "itoa":
 		a := args()
 		return Val{t: fmt.Sprintf("(ite (>= %s 0) (str.from_int %s) (str.++ \"-\" (str.from_int (- %s))))", a[0].t, a[0].t, a[0].t), ty: tString}
+	case "wrapInt", "wrap64":
+		a := args()
+		return Val{t: wrapInt(tInt, a[0].t), ty: tMath}
+	case "wrapU64":
+		a := args()
+		return Val{t: wrapInt(types.Typ[types.Uint64], a[0].t), ty: tMath}
+	case "locked", "rlocked":
+		// locked(x.lock): the lock field `lock` of *x is held (write mode / at least read mode)
+		if len(n.Args) == 1 && n.Args[0].Kind == "field" {
+			base := e.expr(n.Args[0].Args[0])
+			T := base.ty
+			if p, ok := T.Underlying().(*types.Pointer); ok {
+				T = p.Elem()
+			}
+			st := T.Underlying().(*types.Struct)
+			for i := 0; i < st.NumFields(); i++ {
+				if st.Field(i).Name() == n.Args[0].Name {
+					lk := g.lockKey(T, i)
+					need := "2"
+					if n.Name == "rlocked" {
+						need = "1"
+					}
+					return Val{t: fmt.Sprintf("(>= (select %s %s) %s)", g.get(e.state, lk), base.t, need), ty: tBool}
+				}
+			}
+		}
+		cxFail("locked() needs a lock field expression")
+	case "cleanRoot":
+		a := args()
+		g.declareFun("|cleanRoot|", "(String) Bool")
+		return Val{t: fmt.Sprintf("(|cleanRoot| %s)", a[0].t), ty: tBool}
 	case "addr":
 		// addr(x.f): identity term of the interior pointer to value field f of *x
 		if len(n.Args) == 1 && n.Args[0].Kind == "field" {
